@@ -29,7 +29,7 @@ def introspectRefresh (cfg : Config) (now : Time) (q : IntrospectReq) : HP Req :
   return r
 
 /-- run a sub-validator and look at its verdict (`err == nil`?) -/
-def attempt {α} (x : HP α) : Prog (Except Err α) := x
+def attempt {α} (x : HP α) : Prog (Except Err α) := x.toProg
 
 def introspectProg (cfg : Config) (now : Time) (q : IntrospectReq) : Prog Out := do
   if cfg.disableRefreshIntrospect then
